@@ -11,7 +11,7 @@ export VERIF_REPO="$repo" VERIF_NO_EVIDENCE=1 VERIF_REPLAY_DIR="$(mktemp -d)"
 cd "$here"
 prop_of() {
   case "$1" in
-    *seeded/*) python3 -c "import json,sys;print(json.load(open(sys.argv[1]))['property'])" "$(dirname "$1")/meta.json" ;;
+    *seeded/*) python3 -c "import json,sys;m=json.load(open(sys.argv[1]));print(m.get('verif_check',{}).get('id') or m['property'])" "$(dirname "$1")/meta.json" ;;
     *m_c[0-9][0-9]_*) basename "$1" | sed -E 's/^m_c([0-9]{2})_.*/C\1/' ;;
     *prefix_F1_*|*prefix_F7F8_*) echo C29 ;; *prefix_F2_*) echo C26 ;; *prefix_F3_*) echo C31 ;;
     *prefix_F4F5_*|*prefix_F6_*) echo C01 ;; *prefix_F9_*) echo C10 ;; *prefix_F10_*) echo C25 ;;
